@@ -9,7 +9,12 @@ use super::{
     decoder::{self, PayloadDecoder, PayloadItem, PayloadType},
     encoder, Message, MessageType,
 };
-use crate::{body::BodySize, error::ParseError, ConnectionType, Request, Response, ServiceConfig};
+use crate::{
+    body::BodySize,
+    error::ParseError,
+    header::{CONTENT_LENGTH, TRANSFER_ENCODING},
+    ConnectionType, Request, Response, ServiceConfig,
+};
 
 bitflags! {
     #[derive(Debug, Clone, Copy)]
@@ -196,6 +201,23 @@ impl Encoder<Message<(Response<()>, BodySize)>> for Codec {
                 } else {
                     self.conn_type
                 };
+
+                // HTTP/1.0 clients do not understand the chunked transfer coding, so a body of
+                // unknown length is sent unframed and delimited by closing the connection
+                // (RFC 7230 §3.3.1, §3.3.3)
+                if self.version < Version::HTTP_11
+                    && length == BodySize::Stream
+                    && res.head().chunked()
+                {
+                    let head = res.head_mut();
+                    head.no_chunking(true);
+                    head.headers.remove(&CONTENT_LENGTH);
+                    head.headers.remove(&TRANSFER_ENCODING);
+
+                    if !self.flags.contains(Flags::HEAD) {
+                        self.conn_type = ConnectionType::Close;
+                    }
+                }
 
                 // encode message
                 self.encoder.encode(
